@@ -30,6 +30,7 @@ def run(facts, chk, tier, only=None):
     from . import lo_e2e
     chk.guard('C17.e2e', 'C17.e2e:run', lambda: lo_e2e.check_snps(facts, chk, 'C17.e2e', tier))
     # reference mode (-r): coordinates, REF / ALT / genotypes of the SNP VCF and the pseudo-genomes
+    chk.guard('C17.e2e', 'C17.e2e:run-wide', lambda: lo_e2e.check_wide(facts, chk, 'C17.e2e', tier, 'snp'))        # thorough tier only
     chk.guard('C17.e2e', 'C17.e2e:run-ref', lambda: lo_e2e.check_snps_ref(facts, chk, 'C17.e2e', tier))
     # the Lo arm of main: the named file, in its own width, and every command-line value reach skalo
     from . import cli_more
